@@ -628,6 +628,11 @@ C.contract(
         decreases=['stack_size(triplestack)'],
         ghost_back=['''
 if isinstance(doc, Group):
+    # C05 / C06: the mode the group continues in is FLAT exactly when the content of the group and what follows it on
+    # the line fit into the available width (fits() is the compositional width semantics the predicates are proved
+    # equal to): a group is laid out flat only if it fits, and broken only for one of the reasons fits() unfolds to
+    assert (triplestack[-1][1] is FLAT_MODE) == fits(available_width, SMART, min_nesting_level, triplestack[:-1] + [(indent, FLAT_MODE, doc.doc)])
+    assert available_width == min(width - outcol, indent + RW - outcol)
     if not (reach_ab(doc.doc) or nrm_nil(doc.doc)):
         ok = ok and (oracle(k) == (triplestack[-1][1] is FLAT_MODE))
         k = k + 1
